@@ -128,7 +128,14 @@ func (sa *RegisterApi) ReadEnumRegister(r veregister.EnumRegisterStruct) (vecons
 		return nil, fmt.Errorf("fetching enum register '%s' failed: %w", r.Name(), err)
 	}
 
-	if e, err := r.Factory().NewEnum(int(intValue)); err != nil {
+	// a value that does not fit into an int (32 bits wide on arm and 386) is no index of any enum; do not let the conversion
+	// wrap it around onto a defined one
+	enumIdx := int(intValue)
+	if enumIdx < 0 || uint64(enumIdx) != intValue {
+		return nil, fmt.Errorf("decoding enum register '%s' failed: %w", r.Name(), veconst.ErrInvalidEnumIdx)
+	}
+
+	if e, err := r.Factory().NewEnum(enumIdx); err != nil {
 		return nil, fmt.Errorf("decoding enum register '%s' failed: %w", r.Name(), err)
 	} else {
 		return e, nil
